@@ -38,16 +38,27 @@ def completenessApplies (cfg : Config) (p : Pat) (vals : List Bytes) (reqPath : 
   WFPat p && Delimited p && vals.length == (p.filter (·.isParam)).length &&
   CleanFill (foldPat cfg p) (foldVals cfg vals) && trailingOK cfg p vals && pathIsFill cfg p vals reqPath
 
+/-- fiber's `maxParams` (ctx.go): a request holds at most 30 parameter values; `register` refuses
+    (panics on) a route that declares more, `getMatch` lets such a pattern match nothing. The model
+    (`C02.register`, `C02.getMatch`) has no such bound – the completeness theorems hold for every
+    parameter count (`fill_served_any_count`) – so the bound is part of the oracle and of the driver's
+    rendering of the model, not of the model. -/
+def maxParams : Nat := 30
+
+def nparams (p : Pat) : Nat := (p.filter (·.isParam)).length
+
 structure Obs3 where
   disp : Obs
   rpm : Option Bool      -- none = RoutePatternMatch panicked
   deriving DecidableEq, Repr
 
-/-- first failing clause, or none. The values clause applies when the (decoded) request path is the
+/-- first failing clause, or none. A well-formed pattern with at most `maxParams` parameters must be
+    registered (one with more may be refused: nothing is demanded of a refused route; if it is
+    accepted the clauses below apply to it like to any other). The values clause applies when the (decoded) request path is the
     fill itself up to letter case; a request that only differs by an ignored trailing slash is held
     to the decision only. -/
 def specViolation (cfg : Config) (p : Pat) (vals : List Bytes) (reqPath : Bytes) (o : Obs3) : Option String :=
-  if o.disp.panic then (if WFPat p then some "wellformed-pattern-refused" else none)
+  if o.disp.panic then (if WFPat p && nparams p ≤ maxParams then some "wellformed-pattern-refused" else none)
   else if o.rpm != some (o.disp.ran == 1) then some "rpm-eq-dispatch"
   else if completenessApplies cfg p vals reqPath then
     (if o.disp.ran != 1 then some "fill-matches"
